@@ -904,9 +904,7 @@ class VectorExpression:
 
     def __rsub__(self, other: float | int) -> VectorExpression:
         # other - self
-        return VectorExpression(
-            [BinaryOp(_ensure_expr(other), expr, "-") for expr in self._expressions]
-        )
+        return _vector_reflected_op(self, other, "-")
 
     def __mul__(self, other: float | int) -> VectorExpression:
         """Scalar multiplication."""
@@ -921,9 +919,7 @@ class VectorExpression:
 
     def __rtruediv__(self, other: float | int) -> VectorExpression:
         """Right scalar division."""
-        return VectorExpression(
-            [BinaryOp(_ensure_expr(other), expr, "/") for expr in self._expressions]
-        )
+        return _vector_reflected_op(self, other, "/")
 
     def __neg__(self) -> VectorExpression:
         """Negate all elements."""
@@ -1238,9 +1234,7 @@ class VectorVariable:
 
     def __rsub__(self, other: float | int) -> VectorExpression:
         """Right subtraction: scalar - vector."""
-        return VectorExpression(
-            [BinaryOp(_ensure_expr(other), v, "-") for v in self._variables]
-        )
+        return _vector_reflected_op(self, other, "-")
 
     def __mul__(self, other: float | int) -> VectorExpression:
         """Scalar multiplication: x * 2."""
@@ -1256,9 +1250,7 @@ class VectorVariable:
 
     def __rtruediv__(self, other: float | int) -> VectorExpression:
         """Right scalar division: 1 / x."""
-        return VectorExpression(
-            [BinaryOp(_ensure_expr(other), v, "/") for v in self._variables]
-        )
+        return _vector_reflected_op(self, other, "/")
 
     def __neg__(self) -> VectorExpression:
         """Negate all elements: -x."""
@@ -1699,6 +1691,44 @@ def _vector_binary_op(
     ]
 
     return VectorExpression(result_exprs)
+
+
+def _vector_reflected_op(
+    vector: VectorVariable | VectorExpression,
+    other: float | int | np.ndarray | list,
+    op: Literal["-", "/"],
+) -> VectorExpression:
+    """Helper for reflected element-wise operations: ``other op vector``.
+
+    ``other`` is a scalar (broadcast) or a 1-D array / list matched
+    element by element.
+    """
+    if isinstance(vector, VectorVariable):
+        elems: list[Expression] = list(vector._variables)
+    else:
+        elems = list(vector._expressions)
+
+    if isinstance(other, (np.ndarray, list)) and np.ndim(other) > 0:
+        arr = np.asarray(other)
+        if arr.ndim != 1:
+            raise WrongDimensionalityError(
+                context=f"vector {op}",
+                expected_ndim=1,
+                got_ndim=arr.ndim,
+            )
+        if len(arr) != len(elems):
+            raise DimensionMismatchError(
+                operation=f"vector {op}",
+                left_shape=len(arr),
+                right_shape=len(elems),
+            )
+        lefts: list[Expression] = [Constant(val) for val in arr]
+    else:
+        lefts = [_ensure_expr(other)] * len(elems)
+
+    return VectorExpression(
+        [BinaryOp(left, elem, op) for left, elem in zip(lefts, elems)]
+    )
 
 
 def vector_sum(vector: VectorVariable | VectorExpression) -> VectorSum | Expression:
